@@ -41,7 +41,7 @@ BUDGET_S = {'quick': 240, 'thorough': 2400}
 FEATS = ('hier', 'abstract', 'enum', 'strlike', 'defaults', 'date', 'path',
          'buf', 'abstract_containers', 'any', 'norecognize')
 
-LITS = [['str', 'x'], ['str', '1'], ['str', ''], ['str', 'true'], ['int', 1],
+LITS = [['bool', True], ['int', 7], ['str', 'x'], ['str', '1'], ['str', ''], ['str', 'true'], ['int', 1],
         ['int', 0], ['int', 31], ['int', 15], ['float', '1.5'], ['float', '1.0'],
         ['bool', True], ['bool', False], ['none']]
 
@@ -71,7 +71,10 @@ def cases(draw):
     spec = draw(gen.models(FEATS, max_classes=4))
     t, origin = draw(gen.doc_for(spec, tags=False, hard=False))
     if draw(st.integers(0, 3)) == 0:
-        t = T.M([('a', copy.deepcopy(t)), ('x', T.S('0x1F')), ('b', T.S('017'))])
+        t = T.M([('a', copy.deepcopy(t)), ('x', T.S('0x1F')), ('b', T.S('017')),
+                 ('y', T.S(draw(st.sampled_from(['yes', 'on', 'No', 'true'])), '', '!!bool')),
+                 ('c', draw(st.sampled_from([T.S('foo', '', '!!int'), T.S('0x_'), T.S('', '"', '!!int'),
+                                             T.S('foo', '', '!!float'), T.S('7')])))])
     elif t[0] != 'm' and draw(st.integers(0, 2)) > 0:
         t = T.M([(draw(st.sampled_from(gen.PARAM_NAMES)), copy.deepcopy(t)),
                  ('val', draw(gen.scalar_trees(spec)))])
